@@ -210,3 +210,40 @@ pub fn h_checked_full_tok<const N: usize>() {
     all_dead_except(0);
     kani::cover!(true, "reached");
 }
+
+/// a source whose size_hint under-reports (upper bound 0): legal for an Iterator,
+/// the container may not rely on it for memory safety
+pub struct Liar<const L: usize> {
+    pub items: [(u8, u8); L],
+    pub pos: usize,
+}
+impl<const L: usize> Iterator for Liar<L> {
+    type Item = (u8, u8);
+    fn next(&mut self) -> Option<(u8, u8)> {
+        if self.pos < L {
+            self.pos += 1;
+            Some(self.items[self.pos - 1])
+        } else {
+            None
+        }
+    }
+    fn size_hint(&self) -> (usize, Option<usize>) {
+        (0, Some(0))
+    }
+}
+
+pub fn h_full_from_liar<const N: usize, const L: usize>() {
+    let items: [(u8, u8); L] = kani::any();
+    let mut i = 0;
+    while i < L {
+        let mut j = i + 1;
+        while j < L {
+            kani::assume(items[i].0 != items[j].0);
+            j += 1;
+        }
+        i += 1;
+    }
+    kani::cover!(true, "reached");
+    let m: Map<u8, u8, N> = Liar { items, pos: 0 }.collect();
+    assert!(false, "C03: collecting more distinct keys than the capacity returned instead of panicking (source with a wrong size_hint)");
+}
